@@ -570,6 +570,38 @@ func fsOne(tr *tracer.T, seed int64, c *fsCase) int {
 		conf.Options.HttpProfile = -1
 		conf.Options.ExtraInfo = false
 		ab, pan = runAbortable(func() { (&run.CmdRestore{}).Main() })
+	case "bigkey":
+		// the element-by-element route of rump's writer (utils.RestoreBigkey on a DUMP payload), one call per entry on ONE connection
+		// with its remembered database, in file order
+		ab, pan = runAbortable(func() {
+			conn, err := utils.OpenRedisConn([]string{addr}, "auth", "tgt-SECRET-pw", false, false)
+			if err != nil {
+				runErr = err
+				return
+			}
+			defer conn.Close()
+			l := rdb.NewLoader(rdr)
+			if err := l.Header(); err != nil {
+				runErr = err
+				return
+			}
+			preDb := 0
+			for {
+				e, err := l.NextBinEntry()
+				if err != nil {
+					runErr = fmt.Errorf("loader: %v", err)
+					return
+				}
+				if e == nil {
+					return
+				}
+				dest := int(e.DB)
+				if c.Cfg.Tdb != -1 {
+					dest = c.Cfg.Tdb
+				}
+				utils.RestoreBigkey(conn, string(e.Key), string(e.Value), 0, dest, &preDb)
+			}
+		})
 	case "entry":
 		ab, pan = runAbortable(func() {
 			conn, err := utils.OpenRedisConn([]string{addr}, "auth", "tgt-SECRET-pw", false, false)
